@@ -7,7 +7,7 @@ use std::{alloc::Layout, pin::Pin, ptr::NonNull};
 
 use crate::{
     alloc::{AllocProxy, Allocator, CaoLangAllocator},
-    collections::{bounded_stack::BoundedStack, value_stack::ValueStack},
+    collections::{bounded_stack::BoundedStack, hash_map::CaoHashMap, value_stack::ValueStack},
     prelude::*,
     value::Value,
     vm::runtime::cao_lang_object::CaoLangObjectBody,
@@ -375,10 +375,19 @@ impl RuntimeData {
             debug_assert!(!matches!(obj.marker, GcMarker::Black));
             match &mut obj.body {
                 CaoLangObjectBody::Table(obj) => {
-                    for (key, value) in obj.iter() {
+                    // everything the table stores, not only what a lookup by its listed keys
+                    // finds: a key that is itself a table hashes by content, so changing it
+                    // hides its entry from lookups until it is changed back
+                    let stored: &CaoHashMap<Value, Value, AllocProxy> = obj;
+                    for (key, value) in stored.iter() {
                         unsafe {
                             checked_enqueue_value!(key);
                             checked_enqueue_value!(value);
+                        }
+                    }
+                    for key in obj.keys() {
+                        unsafe {
+                            checked_enqueue_value!(key);
                         }
                     }
                 }
